@@ -90,7 +90,7 @@ def features(prog):
           f.add('opt:' + k)
       for b in n['s']:
         f.add('end:' + b['end'])
-        if 'f' in b['sets'].values():
+        if {'f', 'x', 'px'} & set(b['sets'].values()):
           f.add('meas_fail')
       if n['m']:
         f.add('meas')
@@ -159,7 +159,7 @@ def _behaviour(draw, meas, in_subtest, timeout_phase, simple=False):
                            ('INVALID_EMPTY', 1), ('RAISE_A', 2), ('RAISE_A2', 1), ('RAISE_B', 1), ('RAISE_O', 2)])
   sets = {}
   for name in meas:
-    v = _weighted(draw, [('p', 7), ('f', 2), (None, 1)])
+    v = _weighted(draw, [('p', 14), ('f', 4), (None, 2), ('x', 1), ('px', 1)])
     if v:
       sets[name] = v
   return {'sets': sets, 'end': end}
@@ -497,6 +497,14 @@ def _mk_body(node, ctx, htf):
       hook(test, inv, plugs)
     b = script[min(inv, len(script) - 1)]
     for name, v in b['sets'].items():
+      if v in ('x', 'px'):
+        if v == 'px':
+          test.measurements[name] = 5
+        try:      # a defensive read loop: the instrument answered 'OVERLOAD', the validator raises on it
+          test.measurements[name] = 'OVERLOAD'
+        except Exception:  # pylint: disable=broad-except
+          pass
+        continue
       test.measurements[name] = 5 if v == 'p' else 50
     end = b['end']
     if end == 'NONE':
